@@ -207,6 +207,28 @@ def run(ctx: Ctx) -> Result:
     res.stats['outcome_distribution'] = status
     res.stats['trace_maxima'] = traces
     res.stats['search'] = 'every case is judged on the implementation alone by the instrumented-trace oracle (limits at every step, drops, backward reads, CALL/EVAL depth, LOOP iterations, error class)'
+    # the limits an embedder passes to run_auth_scripts are the limits of its one shared stack: item-count and item-size limits
+    # are independent (asymmetric pairs, items whose size lies between the two)
+    def auth_limits():
+        F = vmrun.impl.functions(); N = G.names()
+        with vmrun.Env(vmrun.Cfg()) as env:
+            for mi, ms in ((1024, 8), (4, 1024), (40, 32), (64, 33), (3, 100), (100, 3), (255, 64), (16, 16)):
+                for n in sorted({1, ms - 1, ms, ms + 1, mi - 1, mi, mi + 1, (mi + ms) // 2}):
+                    if n < 1 or n > 60000: continue
+                    for k_items in (1, mi, mi + 1):
+                        if k_items > 300: continue
+                        wit = G.push(bytes(n)) + bytes([N['POP0']]) + bytes([N['TRUE']]) * k_items
+                        lock = bytes([N['POP0']]) * (k_items - 1)
+                        want = n <= ms and k_items <= mi
+                        res.note_case(('auth-limits', mi, ms, n, k_items))
+                        try: got = F.run_auth_scripts([wit, lock], {}, {}, {}, mi, ms, 128)
+                        except BaseException as e: got = 'RAISED:' + type(e).__name__
+                        if got != want and len(res.violations) < 10:
+                            res.violations.append({'input': {'source': 'run_auth_scripts', 'scripts': [wit.hex()[:200], lock.hex()[:200]], 'stack_max_items': mi, 'stack_max_item_size': ms,
+                                                             'what': f'push of a {n}-byte item, then {k_items} items on the stack'},
+                                                   'expected': f'{want}: an item longer than stack_max_item_size or more than stack_max_items items end the authorization with False; anything within both limits is allowed',
+                                                   'observed': str(got), 'how_to_run': './check C07 --tier quick'})
+    vmrun.in_big_thread(auth_limits)
     return res
 
 
